@@ -28,7 +28,7 @@ RULE = (
 ASSUMPTIONS = ["bounds as C01/C02; Python temporaries are observed behaviourally (a temporary used before assignment raises)"]
 REL = 1e-9
 CMATH = {"sin", "cos", "tan", "atan", "atan2", "tanh", "exp", "log", "sqrt", "pow", "fabs", "M_PI", "M_E", "asin", "acos",
-         "sinh", "cosh", "double", "L"}
+         "sinh", "cosh", "asinh", "atanh", "acosh", "double", "L"}
 
 
 TEMP_NAMED = ("cse-nest3", "cse-dtshare", "cse-temp-is-output", "cse-identity-outs", "cse-const-outs")
@@ -56,6 +56,9 @@ def cases(tier, seed):
     fam = fam + named + sizes
     for d in fam:
         yield {"kind": "py", "def": d, "seed": seed, "per_symbol": 2 if tier == "quick" else 3}
+    # model VALUES only: intermediates that overflow (exp(896) = inf) while the value stays defined - on and off must agree
+    for d in space.family_extreme():
+        yield {"kind": "py-model", "def": d, "seed": seed, "per_symbol": 2 if tier == "quick" else 3}
     sub = (fam[::3] + [d for d in fam if ("manytemps" in d["name"] or d in named[:2] or d in sizes) and d not in fam[::3]]) if tier == "quick" else fam
     for d in sub:
         yield {"kind": "cpp", "def": d, "seed": seed}
@@ -268,7 +271,50 @@ def eval_cpp(case):
             "sample": {"kind": "cpp", "program": d["name"], "temporaries": ntemp, "functions_scanned": nfun, "values_compared": n}}
 
 
+def eval_py_model(case):
+    from fv.refmodel import ref_eval, Singular
+    d = case["def"]
+    st, ca, ct = space.def_symbols(d)
+    cal = dict((k, v) for k, v in d["calmap"])
+    asts = dict((k, a) for k, a in d["model"])
+    fails, n = [], 0
+    try:
+        on, off = pyimpl.py_model(d, {"cse": True}), pyimpl.py_model(d, {"cse": False})
+    except Exception as e:
+        return {"n": 1, "fails": [{"key": f"compile-refused:{type(e).__name__}:py-model", "what": f"{d['name']}: {e!r}"[:300]}]}
+    ntemps = count_temps(on._impl)
+    for env in space.grid_points(st + ct, case["per_symbol"], case["seed"], (0.125, -0.25), specials=[4.0, -3.5, 8.0] + space.special_values(list(asts.values()))):
+        full = dict(env)
+        full.update(cal)
+        try:
+            ref = [ref_eval(asts[s_], full) for s_ in st]
+        except Singular:
+            continue
+        outs = {}
+        for lab, m in (("on", on), ("off", off)):
+            try:
+                outs[lab] = m.model(env["dt"], m.State(**{s_: env[s_] for s_ in st}), m.Control(**{s_: env[s_] for s_ in ct})).data.ravel()
+            except Exception as e:
+                if not any(f["key"].startswith("raises") for f in fails):
+                    fails.append({"key": f"raises:{type(e).__name__}:py-model", "what": f"{d['name']} cse={lab}: {type(e).__name__}: {str(e)[:150]} at {env}"})
+        if len(outs) < 2:
+            break
+        n += 1
+        for i, s_ in enumerate(st):
+            a, b = float(outs["on"][i]), float(outs["off"][i])
+            if not (pyimpl.close(a, b, 1e-12) and pyimpl.close(a, ref[i], REL)):
+                if not any(f["key"].startswith("cse-changes-result") for f in fails):
+                    fails.append({"key": "cse-changes-result:py-model", "what": f"{d['name']}: state '{s_}' CSE on {a!r}, off {b!r}, symbolic value "
+                                  f"{float(ref[i])!r} at {env}"})
+        if fails:
+            break
+    return {"n": n, "fails": fails, "nontrivial": ntemps > 0, "sig": "pym:" + d["name"], "outcomes": ["py-model-evaluated"],
+            "counters": {"python_temporaries": ntemps}, "sample": {"kind": "py-model", "program": d["name"], "temporaries": ntemps, "points": n}}
+
+
 def eval_case(case):
+    if case["kind"] == "py-model":
+        return eval_py_model(case)
     return eval_py(case) if case["kind"] == "py" else eval_cpp(case)
 
 
